@@ -1,7 +1,7 @@
 (* C10 -- the overlay shows the overlayfs union of its layers and never modifies lowers.
    Only statements, closed by [exact]; proofs live in Proofs/Overlay*.v. *)
 From Coq Require Import List String NArith Bool.
-From FB Require Import Model.Overlay Proofs.OverlayInv Proofs.OverlayScan Proofs.OverlayRestart.
+From FB Require Import Model.Overlay Proofs.OverlayInv Proofs.OverlayScan Proofs.OverlayRestart Proofs.OverlayReadOnly.
 Import ListNotations.
 Local Open Scope string_scope.
 Local Open Scope N_scope.
@@ -20,6 +20,23 @@ Proof. exact scan_is_merge. Qed.
    It is checked on every run by evaluating [fs_apply] on the implementation's observations. *)
 Theorem C10_op_refines_refuted : ~ C10_op_refines_full.
 Proof. exact op_refines_refuted. Qed.
+
+(* Proved part of the per-operation refinement.  Operations covered (readonly_op o = true):
+     lookup, getattr, readdir, read, readlink, open(O_RDONLY), getxattr, listxattr.
+   For every state (no invariant needed) such an operation leaves upper and lower layers as they
+   are, and the client's view afterwards is the view an ordinary file system shows after the same
+   operation (namely the unchanged tree).  NOT covered: the modifying operations (mkdir, create,
+   mknod, symlink, link, unlink, rmdir, open for writing, write, chmod, truncate, setxattr,
+   removexattr) and the equality of result codes / payloads (checked by differential runs only). *)
+Theorem C10_op_refines_partial : forall s o, readonly_op o = true ->
+  op_refines_view s o /\ upper (run_op o s) = upper s /\ lowers (run_op o s) = lowers s.
+Proof. exact op_refines_partial. Qed.
+(* histories restricted to those operations, with tree walks in between or not: layers unchanged and
+   the root of the cache stays view-equivalent to the initial one *)
+Theorem C10_readonly_history : forall ops, readonly_history ops = true -> forall s,
+  let s' := run_dumps ops s in
+  upper s' = upper s /\ lowers s' = lowers s /\ next_ino s' = next_ino s /\ vs s (root s') (root s).
+Proof. exact readonly_run. Qed.
 
 (* Invariant of the node cache: a backing inode flagged in_upper_layer lives in layer 0 and only
    exists when there is an upper layer.  It holds for a freshly imported overlay ... *)
@@ -77,6 +94,8 @@ Proof. split; [exact (fresh_inv None _ _)|vm_compute; reflexivity]. Qed.
 
 Print Assumptions C10_scan_is_merge.
 Print Assumptions C10_op_refines_refuted.
+Print Assumptions C10_op_refines_partial.
+Print Assumptions C10_readonly_history.
 Print Assumptions C10_fresh_invariant.
 Print Assumptions C10_lowers_untouched.
 Print Assumptions C10_lowers_untouched_history.
